@@ -199,11 +199,18 @@ def sync_build_dir():
     if os.path.realpath(COQ) == os.path.realpath(src):
         return
     os.makedirs(COQ, exist_ok=True)
-    subprocess.run(
-        ["rsync", "-a", "--update", "--exclude", "Gen/*", "--exclude", ".lock", "--exclude", "Makefile*",
-         "--exclude", "_CoqProject", "--exclude", ".Makefile.d", src + "/", COQ + "/"],
-        check=True,
-    )
+    # Compiled files may be copied only while nothing has been built here yet: the Gen/*.vo made afterwards are
+    # then newer than every copied file, so make rebuilds whatever depends on them.  On later syncs a copied
+    # Model/*.vo (compiled against /repo's tables) could be newer than this directory's Gen/*.vo and would be
+    # kept although "inconsistent" - so then only sources (and Lib/, which never depends on Gen) are updated.
+    gen = os.path.join(COQ, "Gen")
+    fresh = not (os.path.isdir(gen) and any(f.endswith(".vo") for f in os.listdir(gen)))
+    cmd = ["rsync", "-a", "--update", "--exclude", "Gen/*", "--exclude", ".lock", "--exclude", "Makefile*",
+           "--exclude", "_CoqProject", "--exclude", ".Makefile.d", "--exclude", "evidence/"]
+    if not fresh:
+        cmd += ["--include", "Lib/*", "--exclude", "*.vo", "--exclude", "*.vos", "--exclude", "*.vok",
+                "--exclude", "*.glob", "--exclude", ".*.aux"]
+    subprocess.run(cmd + [src + "/", COQ + "/"], check=True)
 
 
 def vfiles():
